@@ -340,7 +340,7 @@ def _async_run_single_stage(
         for worker, state in copy.copy(iterating).items():
           if state.done():
             del iterating[worker]
-            worker.release()
+            worker.release(worker_pool)
             if exc := state.exception():
               logging.exception(
                   'chainable: %s',
@@ -364,7 +364,7 @@ def _async_run_single_stage(
     finally:
       # Workers still iterating when the stage fails must not stay acquired.
       for worker in iterating:
-        worker.release()
+        worker.release(worker_pool)
     if worker_exceptions:
       logging.error('chainable: %s', f'{len(worker_exceptions)} workers failed')
       raise ExceptionGroup('Workers failed with exceptions:', worker_exceptions)
